@@ -27,6 +27,7 @@ import (
 	sdk "github.com/cosmos/cosmos-sdk/types"
 	sdktx "github.com/cosmos/cosmos-sdk/types/tx"
 	authtypes "github.com/cosmos/cosmos-sdk/x/auth/types"
+	vestingtypes "github.com/cosmos/cosmos-sdk/x/auth/vesting/types"
 	banktypes "github.com/cosmos/cosmos-sdk/x/bank/types"
 	distrtypes "github.com/cosmos/cosmos-sdk/x/distribution/types"
 	govtypes "github.com/cosmos/cosmos-sdk/x/gov/types"
@@ -59,7 +60,24 @@ type actor struct {
 	id   int
 	addr sdk.AccAddress
 	eth  *ecdsa.PrivateKey // non-nil for ethereum-key accounts (possible targets)
+	dual bool              // an ethereum-key account that also has an auth account with a secp256k1 key (possible source AND target)
+	vest *vestSpec         // non-nil for vesting accounts (they only send, receive and migrate)
 }
+
+// a vesting schedule, times in seconds relative to the world's clock, denominations as indexes into world.denoms
+type vestSpec struct {
+	kind        int // 0 delayed, 1 continuous, 2 periodic, 3 permanently locked
+	start, stop int64
+	orig        []sdkmath.Int   // per denom index (zero = none)
+	periods     []vestPeriod    // periodic only
+}
+
+type vestPeriod struct {
+	length int64
+	amt    []sdkmath.Int
+}
+
+type migRec struct{ from, to *actor }
 
 type world struct {
 	t      *testing.T
@@ -75,6 +93,7 @@ type world struct {
 	denoms []string
 	minDep sdkmath.Int
 	gone   map[int]bool // addresses already used in a migration
+	hist   []migRec     // accepted migrations, in order
 }
 
 func (w *world) time() time.Time { return w.t0.Add(time.Duration(w.now) * time.Second) }
@@ -180,6 +199,17 @@ func newWorld(t *testing.T, out *hx.Out, rng *rand.Rand) *world {
 		w.s.App.AccountKeeper.SetAccount(ctx, acc)
 		w.add(a)
 	}
+	// vesting accounts 7, 8, 9 (secp256k1 key: plausible sources) with schedules around the time scale of a sequence
+	for i := 0; i < 3; i++ {
+		secret := make([]byte, 32)
+		rng.Read(secret)
+		pk := secp256k1.GenPrivKeyFromSecret(secret)
+		a := &actor{id: 7 + i, addr: sdk.AccAddress(pk.PubKey().Address().Bytes())}
+		a.vest = w.newVestSpec(i)
+		base := authtypes.NewBaseAccount(a.addr, pk.PubKey(), w.s.App.AccountKeeper.NextAccountNumber(ctx), 0)
+		w.s.App.AccountKeeper.SetAccount(ctx, w.vestingAccount(base, a.vest))
+		w.add(a)
+	}
 	for i := 0; i < 6; i++ {
 		var k *ecdsa.PrivateKey
 		for k == nil {
@@ -188,6 +218,18 @@ func newWorld(t *testing.T, out *hx.Out, rng *rand.Rand) *world {
 			k, _ = crypto.ToECDSA(bz)
 		}
 		a := &actor{id: 11 + i, addr: sdk.AccAddress(crypto.PubkeyToAddress(k.PublicKey).Bytes()), eth: k}
+		if i >= 3 {
+			// dual: the address also carries an auth account with a secp256k1 key, so that it can stand on either side of
+			// a migration (old source as target, old target as source, a pair reversed)
+			secret := make([]byte, 32)
+			rng.Read(secret)
+			pk := secp256k1.GenPrivKeyFromSecret(secret)
+			a.dual = true
+			w.s.App.AccountKeeper.SetAccount(ctx, &ethermint.EthAccount{
+				BaseAccount: authtypes.NewBaseAccount(a.addr, pk.PubKey(), w.s.App.AccountKeeper.NextAccountNumber(ctx), 0),
+				CodeHash:    common.BytesToHash(crypto.Keccak256(nil)).String(),
+			})
+		}
 		w.add(a)
 	}
 	// the operator account of validator 0 gets a public key so that the validator check (not the account check) answers
@@ -202,6 +244,110 @@ func newWorld(t *testing.T, out *hx.Out, rng *rand.Rand) *world {
 		}
 	}
 	return w
+}
+
+// newVestSpec: schedule kinds and boundaries are drawn per world; amounts are whole tokens and the linear schedules
+// last 100/200/500/1000 s so that the SDK's decimal arithmetic is exact
+func (w *world) newVestSpec(i int) *vestSpec {
+	v := &vestSpec{}
+	switch i {
+	case 0:
+		v.kind = 1 + w.rng.Intn(2) // continuous | periodic
+	case 1:
+		v.kind = []int{0, 0, 0, 3}[w.rng.Intn(4)] // delayed | permanently locked
+	default:
+		v.kind = w.rng.Intn(4)
+	}
+	v.orig = []sdkmath.Int{w.amt(100 + w.rng.Int63n(800)), sdkmath.ZeroInt(), sdkmath.ZeroInt()}
+	if w.rng.Intn(2) == 0 {
+		v.orig[1] = w.amt(10 + w.rng.Int63n(90))
+	}
+	v.start = hx.Pick(w.rng, []int64{0, 0, 30})
+	switch v.kind {
+	case 0:
+		v.stop = hx.Pick(w.rng, []int64{40, 150, 400, 900})
+	case 1:
+		v.stop = v.start + hx.Pick(w.rng, []int64{100, 200, 500, 1000})
+	case 2:
+		n := 2 + w.rng.Intn(2)
+		left := append([]sdkmath.Int{}, v.orig...)
+		t := v.start
+		for k := 0; k < n; k++ {
+			p := vestPeriod{length: hx.Pick(w.rng, []int64{40, 100, 150}), amt: make([]sdkmath.Int, len(v.orig))}
+			for di := range v.orig {
+				if k == n-1 {
+					p.amt[di] = left[di]
+				} else {
+					p.amt[di] = left[di].QuoRaw(int64(n - k)).Quo(e18).Mul(e18)
+				}
+				left[di] = left[di].Sub(p.amt[di])
+			}
+			t += p.length
+			v.periods = append(v.periods, p)
+		}
+		v.stop = t
+	case 3:
+		v.stop = 0
+	}
+	return v
+}
+
+func (w *world) coinsOf(amts []sdkmath.Int) sdk.Coins {
+	var cs sdk.Coins
+	for di, a := range amts {
+		if a.IsPositive() {
+			cs = cs.Add(sdk.NewCoin(w.denoms[di], a))
+		}
+	}
+	return cs
+}
+
+func (w *world) vestingAccount(base *authtypes.BaseAccount, v *vestSpec) sdk.AccountI {
+	orig := w.coinsOf(v.orig)
+	unix := func(t int64) int64 { return w.t0.Unix() + t }
+	var acc sdk.AccountI
+	var err error
+	switch v.kind {
+	case 0:
+		acc, err = vestingtypes.NewDelayedVestingAccount(base, orig, unix(v.stop))
+	case 1:
+		acc, err = vestingtypes.NewContinuousVestingAccount(base, orig, unix(v.start), unix(v.stop))
+	case 2:
+		var ps vestingtypes.Periods
+		for _, p := range v.periods {
+			ps = append(ps, vestingtypes.Period{Length: p.length, Amount: w.coinsOf(p.amt)})
+		}
+		acc, err = vestingtypes.NewPeriodicVestingAccount(base, orig, unix(v.start), ps)
+	default:
+		acc, err = vestingtypes.NewPermanentLockedAccount(base, orig)
+	}
+	must(err)
+	return acc
+}
+
+func coinsLine(amts []sdkmath.Int) string {
+	var out []string
+	for di, a := range amts {
+		if a.IsPositive() {
+			out = append(out, fmt.Sprintf("%d:%s", di, a))
+		}
+	}
+	if len(out) == 0 {
+		return "-"
+	}
+	return strings.Join(out, ",")
+}
+
+func (v *vestSpec) line(id int) string {
+	per := "-"
+	if len(v.periods) > 0 {
+		var ps []string
+		for _, p := range v.periods {
+			ps = append(ps, fmt.Sprintf("%d/%s", p.length, coinsLine(p.amt)))
+		}
+		per = strings.Join(ps, ";")
+	}
+	return fmt.Sprintf("vest %d %d %d %d %s %s", id, v.kind, v.start, v.stop, coinsLine(v.orig), per)
 }
 
 func (w *world) add(a *actor) {
@@ -505,6 +651,29 @@ func (w *world) observe() string {
 		it = append(it, item{[]int64{int64(w.id(a))}, fmt.Sprintf("%d=%s/%d", w.id(a), dir, w.id(v[1:21]))})
 	}
 	parts = append(parts, show("M", it))
+	for _, x := range []struct {
+		tag string
+		pfx []byte
+	}{{"MF", migratetypes.KeyPrefixMigratedDirectionFrom}, {"MT", migratetypes.KeyPrefixMigratedDirectionTo}} {
+		it = nil
+		for _, kv := range hx.RawPrefix(ctx, app.GetKey(migratetypes.StoreKey), x.pfx) {
+			it = append(it, item{[]int64{int64(w.id(kv[0][1:]))}, fmt.Sprint(w.id(kv[0][1:]))})
+		}
+		parts = append(parts, show(x.tag, it))
+	}
+	it = nil
+	for _, a := range w.actors {
+		if a.vest == nil {
+			continue
+		}
+		locked := app.BankKeeper.LockedCoins(ctx, a.addr)
+		for di, d := range w.denoms {
+			if l := locked.AmountOf(d); l.IsPositive() {
+				it = append(it, item{[]int64{int64(a.id), int64(di)}, fmt.Sprintf("%d/%d=%s", a.id, di, l)})
+			}
+		}
+	}
+	parts = append(parts, show("L", it))
 	return strings.Join(parts, " ")
 }
 
@@ -607,18 +776,40 @@ func (w *world) amt(units int64) sdkmath.Int { return sdkmath.NewInt(units).Mul(
 
 // actors of ordinary ops: users, and ethereum-key accounts mostly once they own a migrated portfolio
 func (w *world) pickActor() *actor {
-	for i := 0; i < 8; i++ {
+	for i := 0; i < 40; i++ {
 		a := hx.Pick(w.rng, w.actors)
-		if a.eth == nil || w.gone[a.id] || w.rng.Intn(6) == 0 {
+		if a.vest != nil {
+			continue // vesting accounts only send, receive and migrate (the SDK's delegation tracking is not modelled)
+		}
+		if a.eth == nil || a.dual || w.gone[a.id] || w.rng.Intn(6) == 0 {
 			return a
 		}
 	}
-	return hx.Pick(w.rng, w.actors)
+	return w.byID[1]
+}
+
+func (w *world) vesting() []*actor {
+	var vs []*actor
+	for _, a := range w.actors {
+		if a.vest != nil {
+			vs = append(vs, a)
+		}
+	}
+	return vs
 }
 
 func (w *world) opSend() {
 	a, b := w.pickActor(), w.pickActor()
+	if w.rng.Intn(3) == 0 {
+		a = hx.Pick(w.rng, w.vesting()) // a vesting account spends (or tries to spend) around its spendable amount
+	}
+	if w.rng.Intn(6) == 0 {
+		b = hx.Pick(w.rng, w.vesting())
+	}
 	di := w.rng.Intn(len(w.denoms))
+	if a.vest != nil && w.rng.Intn(3) > 0 {
+		di = w.rng.Intn(2)
+	}
 	bal := w.s.App.BankKeeper.GetBalance(w.s.Ctx, a.addr, w.denoms[di]).Amount
 	var n sdkmath.Int
 	switch w.rng.Intn(5) {
@@ -628,6 +819,16 @@ func (w *world) opSend() {
 		n = bal.AddRaw(1) // one too many
 	default:
 		n = sdkmath.NewInt(1 + w.rng.Int63n(500)).Mul(e18)
+	}
+	if a.vest != nil {
+		sp := w.s.App.BankKeeper.SpendableCoins(w.s.Ctx, a.addr).AmountOf(w.denoms[di])
+		switch w.rng.Intn(4) {
+		case 0:
+			n = sp // exactly what is unlocked
+		case 1:
+			n = sp.AddRaw(1) // one locked unit
+		}
+		w.out.Count(fmt.Sprintf("send-vesting:kind=%d", a.vest.kind))
 	}
 	if !n.IsPositive() {
 		return
@@ -866,6 +1067,8 @@ func errKind(res string) string {
 		return "err:to-staking"
 	case strings.Contains(res, "is proposer of") || strings.Contains(res, "have deposit of") || strings.Contains(res, "have vote of"):
 		return "err:gov"
+	case strings.Contains(res, "spendable balance") || strings.Contains(res, "locked amount exceeds account balance"):
+		return "err:exec" // the bank handler's single SendCoins of all balances met a locked coin
 	}
 	return "err:other(" + res + ")"
 }
@@ -1008,9 +1211,12 @@ func (w *world) opMigrate() {
 	switch r := w.rng.Intn(20); {
 	case r == 0:
 		fromID, fromAddr = 100, sdk.AccAddress(w.vals[0])
-	case r < 15: // a plausible source: a user not yet used in a migration
+	case r < 4: // a vesting account (locked, partly vested or fully vested, depending on the time)
+		from = hx.Pick(w.rng, w.vesting())
+		fromID, fromAddr = from.id, from.addr
+	case r < 15: // a plausible source: a user (or dual account) not yet used in a migration
 		from = hx.Pick(w.rng, w.actors)
-		for i := 0; i < 8 && (from.eth != nil || w.gone[from.id]); i++ {
+		for i := 0; i < 8 && ((from.eth != nil && !from.dual) || w.gone[from.id]); i++ {
 			from = hx.Pick(w.rng, w.actors)
 		}
 		fromID, fromAddr = from.id, from.addr
@@ -1026,7 +1232,7 @@ func (w *world) opMigrate() {
 	}
 	to := hx.Pick(w.rng, eths)
 	if w.rng.Intn(4) > 0 { // a plausible target: not yet used
-		for i := 0; i < 8 && w.gone[to.id]; i++ {
+		for i := 0; i < 8 && (w.gone[to.id] || to.id == fromID); i++ {
 			to = hx.Pick(w.rng, eths)
 		}
 	}
@@ -1073,6 +1279,9 @@ func (w *world) migrate(fromID int, fromAddr sdk.AccAddress, to *actor, signer i
 	}
 	_, isVal := w.s.App.StakingKeeper.GetValidator(w.s.Ctx, sdk.ValAddress(fromAddr))
 	usedBefore := w.gone[fromID] || w.gone[to.id]
+	role := w.roleHistory(fromID, to.id)
+	recsBefore := w.recordSlots(fromAddr, to.addr)
+	lockedBefore := w.s.App.BankKeeper.LockedCoins(w.s.Ctx, fromAddr)
 
 	msg := &migratetypes.MsgMigrateAccount{From: fromAddr.String(), To: common.BytesToAddress(to.addr).String(), Signature: sig}
 	raw := w.exec(msg)
@@ -1085,6 +1294,12 @@ func (w *world) migrate(fromID int, fromAddr sdk.AccAddress, to *actor, signer i
 	if len(pf.dels) > 0 || len(pf.ubds) > 0 || len(pf.reds) > 0 {
 		w.out.Count(fmt.Sprintf("migrate-portfolio:dels=%d,ubds=%d,reds=%d=%s", len(pf.dels), len(pf.ubds), len(pf.reds), res))
 	}
+	if role != "" {
+		w.out.Count("migrate-chain:" + role + "=" + res)
+	}
+	if fa := w.byID[fromID]; fa != nil && fa.vest != nil {
+		w.out.Count(fmt.Sprintf("migrate-vesting:kind=%d,locked=%v=%s", fa.vest.kind, !lockedBefore.IsZero(), res))
+	}
 	w.emit(fmt.Sprintf("migrate %d %d %d %s", fromID, to.id, signer, order), res)
 	if strings.HasPrefix(res, "err:other") || res == "panic" {
 		w.out.Violate("migrate: unexpected failure kind " + res)
@@ -1093,7 +1308,20 @@ func (w *world) migrate(fromID int, fromAddr sdk.AccAddress, to *actor, signer i
 		if w.totals() != totals {
 			w.out.Violate("migrate: a refused migration changed totals")
 		}
+		// all or refuse: a refused migration moved nothing and did not use up the one-shot record of either address
+		if a := w.portfolio(fromAddr); a.bal.String()+a.stakingString() != pf.bal.String()+pf.stakingString() {
+			w.out.Violate("refused: a refused migration changed the source's portfolio")
+		}
+		if a := w.portfolio(to.addr); a.bal.String()+a.stakingString() != pt.bal.String()+pt.stakingString() {
+			w.out.Violate("refused: a refused migration changed the target's portfolio")
+		}
+		if w.recordSlots(fromAddr, to.addr) != recsBefore {
+			w.out.Violate("refused: a refused migration wrote a migration record or direction flag")
+		}
 		return
+	}
+	if role != "" {
+		w.out.Violate("reuse: migration accepted although an address took part in an earlier migration (" + role + ")")
 	}
 	w.out.Nontrivial(fmt.Sprintf("migrate-ok:%d,%d,%d,%d", len(pf.bal), len(pf.dels), len(pf.ubds), len(pf.reds)))
 
@@ -1114,6 +1342,13 @@ func (w *world) migrate(fromID int, fromAddr sdk.AccAddress, to *actor, signer i
 		w.out.Violate(fmt.Sprintf("gov: migration accepted while %s is %s of a proposal still in its %s period (proposal %d)", r.who, r.role, r.status, r.id))
 	}
 	w.gone[fromID], w.gone[to.id] = true, true
+	if fa := w.byID[fromID]; fa != nil {
+		w.hist = append(w.hist, migRec{fa, to})
+	}
+	// both addresses are now marked, under the record key and under their direction flag
+	if got := w.recordSlots(fromAddr, to.addr); got != "rec-from,rec-to,dir-from," + "dir-to" {
+		w.out.Violate("record: after an accepted migration not every record slot of source and target is set (" + got + ")")
+	}
 
 	af, at := w.portfolio(fromAddr), w.portfolio(to.addr)
 	if !af.empty() {
@@ -1206,6 +1441,100 @@ func (w *world) migrate(fromID int, fromAddr sdk.AccAddress, to *actor, signer i
 	w.invariants("after migration")
 }
 
+// roleHistory names how the addresses of a requested migration took part in earlier accepted ones ("" = not at all)
+func (w *world) roleHistory(fromID, toID int) string {
+	var out []string
+	for _, m := range w.hist {
+		if m.from.id == fromID && m.to.id == toID {
+			out = append(out, "same-pair-again")
+			continue
+		}
+		if m.from.id == toID && m.to.id == fromID {
+			out = append(out, "pair-reversed")
+			continue
+		}
+		if m.from.id == fromID {
+			out = append(out, "old-source-as-source")
+		}
+		if m.to.id == fromID {
+			out = append(out, "old-target-as-source")
+		}
+		if m.from.id == toID {
+			out = append(out, "old-source-as-target")
+		}
+		if m.to.id == toID {
+			out = append(out, "old-target-as-target")
+		}
+	}
+	sort.Strings(out)
+	return strings.Join(uniq(out), "+")
+}
+
+// which of the four slots SetMigrateRecord writes exist for (from, to)
+func (w *world) recordSlots(from, to sdk.AccAddress) string {
+	st := w.s.Ctx.KVStore(w.s.App.GetKey(migratetypes.StoreKey))
+	var out []string
+	if st.Has(migratetypes.GetMigratedRecordKey(from)) {
+		out = append(out, "rec-from")
+	}
+	if st.Has(migratetypes.GetMigratedRecordKey(to)) {
+		out = append(out, "rec-to")
+	}
+	if st.Has(migratetypes.GetMigratedDirectionFrom(from)) {
+		out = append(out, "dir-from")
+	}
+	if st.Has(migratetypes.GetMigratedDirectionTo(common.BytesToAddress(to))) {
+		out = append(out, "dir-to")
+	}
+	return strings.Join(out, ",")
+}
+
+// opChain: a migration whose addresses change role with respect to an earlier accepted one — the old source as target, the
+// old target as source, the pair reversed, or the same source / target / pair again — correctly signed, so that nothing
+// but the already-migrated guards stands in its way
+func (w *world) opChain() {
+	if len(w.hist) == 0 {
+		w.opMigrate()
+		return
+	}
+	m := hx.Pick(w.rng, w.hist)
+	fresh := func(source bool) *actor {
+		for i := 0; i < 60; i++ {
+			a := hx.Pick(w.rng, w.actors)
+			if w.gone[a.id] || a.vest != nil || a.id == 6 {
+				continue
+			}
+			if source && (a.eth == nil || a.dual) {
+				return a
+			}
+			if !source && a.eth != nil {
+				return a
+			}
+		}
+		return nil
+	}
+	var from, to *actor
+	switch w.rng.Intn(6) {
+	case 0: // old source as target (needs the old source's ethereum key)
+		from, to = fresh(true), m.from
+	case 1: // old target as source (needs an auth account with secp256k1 key at the old target)
+		from, to = m.to, fresh(false)
+	case 2: // the pair reversed
+		from, to = m.to, m.from
+	case 3: // the same pair again
+		from, to = m.from, m.to
+	case 4: // the old source again, to a new target
+		from, to = m.from, fresh(false)
+	default: // a new source to the old target
+		from, to = fresh(true), m.to
+	}
+	if from == nil || to == nil || to.eth == nil || from == to {
+		w.opMigrate()
+		return
+	}
+	w.migrate(from.id, from.addr, to, to.id, "ft", w.sign(to.eth, from.addr, to.addr), "ok")
+}
+
 func diffHint(a, b portfolio) string {
 	var out []string
 	if fmt.Sprint(a.dels) != fmt.Sprint(b.dels) {
@@ -1250,6 +1579,12 @@ func (w *world) reset() {
 		}
 	}
 	w.out.Emit("key 100", "ok")
+	for _, a := range w.actors {
+		if a.vest != nil {
+			w.out.Emit(a.vest.line(a.id), "ok")
+			w.out.Count(fmt.Sprintf("vesting-account:kind=%d", a.vest.kind))
+		}
+	}
 	for id, name := range map[int]string{idBonded: stakingtypes.BondedPoolName, idNotBond: stakingtypes.NotBondedPoolName, idGov: govtypes.ModuleName} {
 		amt := w.balFX(authtypes.NewModuleAddress(name))
 		if amt.IsPositive() {
@@ -1294,8 +1629,10 @@ func (w *world) randomOp() {
 		w.opVote()
 	case r < 88:
 		w.opBlock(hx.Pick(w.rng, []int64{1, 1, 7, 50, 100, 100, 200, 299, 300}))
-	default:
+	case r < 96:
 		w.opMigrate()
+	default:
+		w.opChain()
 	}
 }
 
